@@ -32,6 +32,7 @@ def dispatch (op : String) (args : List String) (obs : String) : String × Strin
   | "cipher" => c02cipher args obs
   | "crd" => c02crd args obs
   | "cwr" => c02cwr args obs
+  | "cwrr" => c02cwrr args obs
   | "mf" => c02mf args obs
   | "chk" => c03chk args obs
   | "cls" => c03cls args obs
@@ -77,7 +78,10 @@ def handleLine (line : String) : String :=
   match line.splitOn " => " with
   | [l, obs] =>
     match l.splitOn " " with
-    | op :: args => let (m, v) := dispatch op args obs; s!"{m} | {v}"
+    | op :: args =>
+      if obs == "HANG" then "RETURNS | bad:operation-never-returned"
+      else if obs == "HANG-SKIPPED" then "HANG-SKIPPED | skip"
+      else let (m, v) := dispatch op args obs; s!"{m} | {v}"
     | [] => "BADLINE | skip"
   | _ => "BADLINE | skip"
 
